@@ -7,6 +7,8 @@ out = {}
 for f in sorted(os.listdir(os.path.join(V, "evidence"))):
     d = json.load(open(os.path.join(V, "evidence", f)))
     pid = d["property_id"]
+    if d.get("tier") != "quick":
+        sys.exit("evidence/%s is from a %s run: floors are generated from quick-tier evidence only (run ./check <ID> for all first)" % (f, d.get("tier")))
     rules = d["coverage"].get("rules", {})
     out[pid] = {r: (max(1, n // 2) if n < 8 else (n * 3) // 4) for r, n in sorted(rules.items())}
 json.dump(out, open(os.path.join(V, "floors.json"), "w"), indent=1, sort_keys=True)
